@@ -318,7 +318,7 @@ func (b *dialBench) checkGaps(w *W, final bool) {
 }
 
 func init() {
-	register(&Scenario{Name: "dialer-reconnect", Prop: "C14", Horizon: 2 * time.Hour, Run: c14Run})
+	register(&Scenario{Name: "dialer-reconnect", Prop: "C14", Horizon: 2 * time.Hour, Weight: 10, Run: c14Run})
 	// C12's clause "rejecting or losing a connection at any stage never stops
 	// a dialer from redialling" is decided by the same runs
 	register(&Scenario{Name: "dialer-keeps-redialling", Prop: "C12", Horizon: 2 * time.Hour, Weight: 4, Run: c14Run})
